@@ -47,7 +47,6 @@ class Slice:
         if not is_sliceable(self.parent):
             raise TypeError(f"{self.parent} is not Sliceable")
         self._connected_ports: Set["PortRef"] = set()
-        self._inner: Optional[SliceInner] = None
         self._slices: WeakSet[Slice] = set()
         self._concats: WeakSet["Concat"] = set()
 
@@ -82,7 +81,7 @@ class Slice:
 @datatype
 class SliceInner:
     """Inner, private, resolved attributes of a `Slice`.
-    Designed solely to be created by `_slice_inner` and stored as the `Slice._inner` field."""
+    Designed solely to be created by `_slice_inner`."""
 
     top: int  # Top index (exclusive)
     bot: int  # Bottom index (inclusive)
@@ -137,7 +136,7 @@ def _slice_inner(slize: Slice) -> SliceInner:
 
 
 def _get_inner(slice: Slice) -> SliceInner:
-    """Get a slice's `SliceInner`, calculating it inline if necessary"""
-    if slice._inner is None:
-        slice._inner = _slice_inner(slice)
-    return slice._inner
+    """Get a slice's `SliceInner`.
+    Calculated anew upon each request: the result depends on the parent's width, which can change after a first request
+    (e.g. `sig.width = 2` after `sig[2:4].width` was read). A stored result would then go on naming bits the parent no longer has."""
+    return _slice_inner(slice)
